@@ -16,9 +16,9 @@ Produce TWO different, realistic changes to the Go code under /tmp/seed-{pid} (t
   (a) everything still compiles (`go build ./...` and `go vet` in every Go module you touch and in the modules that import it), and
   (b) the EXISTING test suite still passes: at least the tests of every package you touched and of the generated systems that use it (run them: each Go module is its own directory with a go.mod — e.g. `cd distsys && go test ./...`, `cd systems/raftkvs && go test ./...` (slow, ~80 s), `cd pgo/test/files/general/hello.tla.gotests && go test ./...`), and
   (c) the breakage needs something SPECIFIC to manifest — a particular interleaving, a crash or fault at a particular point, a multi-step sequence of operations, an unusual input, or two cooperating sites that each look fine alone — NOT something ordinary use would expose at once (if the shipped tests or a trivial smoke run would notice, it is too shallow; if nothing can ever observe it, it is not a break).
-For each change also write a DEMONSTRATION: a Go test (a new _test.go file in the relevant package, or a small new package inside the worktree) that exercises exactly the situation needed, FAILS with your change applied and PASSES on the unmodified code. Verify both directions yourself (`git stash` / `git stash pop` or `git apply -R`). The demonstration may drive resources directly, use goroutines, inject failures through the public interfaces, etc.; it must be deterministic enough to fail reliably (say ≥ 9 of 10 runs) with the change.
+For each change also write a DEMONSTRATION: a Go test (a new _test.go file in the relevant package, or a small new package inside the worktree) that exercises exactly the situation needed, FAILS with your change applied and PASSES on the unmodified code. Verify both directions yourself (save the change with `git diff > /tmp/seed-{pid}-out/N/patch.diff`, toggle it with `git apply -R` / `git apply`; NEVER use `git stash`: the stash is shared with other worktrees of this repository that other people are using). The demonstration may drive resources directly, use goroutines, inject failures through the public interfaces, etc.; it must be deterministic enough to fail reliably (say ≥ 9 of 10 runs) with the change.
 
-Environment: no network. For every shell command: `unset GOFLAGS GOTOOLCHAIN GOSUMDB; export GOPROXY=off` (the repository has a go.work at its root requiring go 1.24, which is in the local toolchain cache and is selected automatically; with these settings `go build ./...`, `go vet ./...` and `go test ./...` work inside every module directory, e.g. `cd distsys && go test ./...`). Scala/mill cannot run; only change Go code (the runtime under distsys/, or the checked-in generated Go of a system such as systems/raftkvs/raftkvs.go when the property is about that system). Do not edit existing tests. Do not commit.
+Environment: no network. For every shell command: `unset GOFLAGS GOTOOLCHAIN GOSUMDB; export GOPROXY=off` (the repository has a go.work at its root requiring go 1.24, which is in the local toolchain cache and is selected automatically; with these settings `go build ./...`, `go vet ./...` and `go test ./...` work inside every module directory, e.g. `cd distsys && go test ./...`). Scala/mill cannot run; only change Go code (the runtime under distsys/, or the checked-in generated Go of a system such as systems/raftkvs/raftkvs.go when the property is about that system). Do not edit existing tests. Do not commit. Other people run tests on this machine at the same time and several test suites listen on fixed TCP ports: run tests inside a private network namespace — `unshare -n bash -c 'ip link set lo up; go test ./...'` — so that an 'address already in use' failure never confuses you.
 
 ## Deliver (write these files, then summarise them in your final message)
 /tmp/seed-{pid}-out/1/patch.diff   — `git diff` of change 1 only (paths relative to the repo root, must apply with `git apply` on a clean checkout)
